@@ -768,3 +768,20 @@ VARIANTS += [
     V('C05-M21', 'M', ('C05', 'C08'), SA, 'AsyncIter.__aiter__', r'x = await loop\.run_in_executor\(None, next, instream, finished\)', 'x = await fut\n                fut = loop.run_in_executor(None, next, instream, finished)', ('C05-7', 'C08-5'), note='seeded C05-r3m1 shape (prefetch)'),
     V('C01-M21', 'M', ('C01', 'C03'), ST, 'fifo_stream', r'if return_exceptions:\n(?:\s+#[^\n]*\n)*\s+y = e\n\s+else:\n\s+raise\n', 'y = e\n            if isinstance(y, Exception) and not return_exceptions:\n                raise y\n', ('C01-3', 'C03-9'), note='seeded C03-r3m2 shape'),
 ]
+
+# ---------------------------------------------------------------------- rules added after the third seeding round
+VARIANTS += [
+    V('C12-M25', 'M', ('C12',), CX, 'SpawnProcess.run', r'if e\.code is None:', 'if not e.code:', ('C12-11',), note='seeded C12-r3m1 shape: falsy exit codes taken for success'),
+    V('C12-M26', 'M', ('C12',), TH, 'Thread.run', r'if e\.code == 0:', 'if e.code <= 0:', ('C12-11',)),
+    V('C12-M27', 'M', ('C12',), CX, 'SpawnProcess._collect_result', r'msg = os\.strerror\(exitcode\)', 'msg = signal.Signals(exitcode).name', ('C12-3',), note='seeded C12-r3m2 shape: a call that can raise inside the EOF handler'),
+    V('C12-E22', 'E', ALL, CX, 'SpawnProcess._collect_result', r'msg = os\.strerror\(exitcode\)', "msg = os.strerror(exitcode)\n                logger.debug('child ended by signal %s', exitcode)"),
+    V('C13-M20', 'M', ('C13', 'C14'), SP, 'BaseProxy._decref', r'(\n        )idset\.discard\(token\.id\)', r'\1server = get_server()\1idset.discard(token.id)', ('C13-6', 'C14-7'), note='seeded C13-r3m2 shape'),
+    V('C10-M20', 'M', ('C10',), TE, 'tee', r'queue\.Queue\(buffer_size\)', 'queue.Queue(buffer_size + 1)', ('C10-7',), note='seeded C10-r3m1 shape'),
+    V('C10-M21', 'M', ('C10',), TE, 'Fork.__next__', r'try:\n(\s+)x = next\(self\.instream\)\n\s+except StopIteration:\n(?:\s+#[^\n]*\n)*\s+pass\n\s+else:\n', r'x = next(self.instream, None)\n                            if x is not None:\n', ('C10-7',), note='seeded C10-r3m2 shape'),
+    V('C04-M22', 'M', ('C04',), WK, 'Worker._start_batch', r'err = RemoteException\(yy\)', 'err = RemoteException(type(yy)(*yy.args), RemoteException(yy).tb)', ('C04-4',), note='seeded C04-r3m1 shape: a re-created exception object'),
+    V('C09-M23', 'M', ('C09', 'C02'), WK, 'Worker._get_input_batch', r'buffer\.put\(z\)\n\s+break', 'return z', ('C09-7', 'C02-8'), note='seeded C09-r3m1 shape'),
+    V('C09-M24', 'M', ('C09', 'C02'), WK, '_SimpleThreadQueue.__init__', r'self\._rlock = threading\.RLock\(\)', 'self._rlock = None', ('C09-7', 'C02-8')),
+    V('C02-M21', 'M', ('C02', 'C06', 'C04'), SL, 'EnsembleServlet._dequeue', r"elif z\['n'\] == nn:", "if z['n'] == nn:", ('C02-5', 'C06-10', 'C04-8'), note='seeded C02-r3m2 shape'),
+    V('C14-M24', 'M', ('C14',), SP, 'managed', r'(\n    )(proxy = server\.create\(None, typeid, obj\))', r'\1\2\1server.registry.pop(typeid, None)', ('C14-9',), note='seeded C14-r3m2 shape'),
+    V('C11-M22', 'M', ('C11',), SL, 'EnsembleServlet.start', r'(\n\s+)(for ss in self\._servlets\[: len\(self\._qins\)\]:\n\s+ss\.stop\(\)[^\n]*)\n\s+self\._reset\(\)\n', r'\1self._reset()\1\2\n', ('C11-1',), note='seeded C11-r3m2 shape'),
+]
